@@ -599,7 +599,9 @@ def chkC10 (ln : Line) (_toks : List Tok) (calls : List (String × Nat)) (fin : 
   else if bad then
     some "C10:stop-waits-on-next-run a Stop call parked before RunDoneWait waited on a run started after it (wait group reused)"
   else if ln.kind != "udp" && calls.any (fun c => roleLetter c.1 == "S" && c.2 != 0 &&
-      !(sitesOf c.1 _toks).contains "start.startRunFailed" && !(sitesOf c.1 _toks).contains "sc.start.refused") then
+      !(sitesOf c.1 _toks).contains "start.startRunFailed" && !(sitesOf c.1 _toks).contains "sc.start.refused" &&
+      -- a source that samples a live data stream legitimately fails to start when nobody sends (judged by `chkRunEnd`)
+      !(ln.kind == "roach" && (sitesOf c.1 _toks).contains "start.sampleFailed")) then
     some "C10:restart-failed a Start call on an inactive source was refused or failed"
   else if calls.any (fun c => roleLetter c.1 == "S" && c.2 == 1) && fin.res != 0 then
     some "C10:failed-start-keeps-resources a failed Start left the sockets / reader goroutines of Sample open; the next Start fails to bind"
